@@ -21,12 +21,38 @@ def tree_mm(rng):
     return mm
 
 
+_EMPTY = {}
+
+
+def loaded_empty(fmt):
+    """a resource obtained by loading a saved empty model (no roots) in a fresh resource set"""
+    import os, tempfile, shutil
+    from pyecore.resources import ResourceSet, URI
+    from pyecore.resources.json import JsonResource
+
+    def rs():
+        r = ResourceSet()
+        r.resource_factory['json'] = lambda uri: JsonResource(uri)
+        return r
+    d = tempfile.mkdtemp(prefix='verif_c11_')
+    try:
+        p = os.path.join(d, f'empty.{fmt}')
+        rs().create_resource(URI(p)).save()
+        return rs().get_resource(URI(p))
+    finally:
+        shutil.rmtree(d, ignore_errors=True)
+
+
 def run_history(ctx, h, nops, model_in, expect):
     rng = common.sub_rng(ctx.seed, 'C11', h)
     mm = tree_mm(rng) if h % 4 else store.gen_mm(rng)
     if not any(f.ref and f.cont and f.many for f in mm.feats):
         mm.add_feat(owner=0, name='', ref=True, many=True, ordered=rng.random() < .8, unique=True, cont=True, typ=('cls', rng.randrange(2)))
     w = store.World(mm, observe=False)
+    if h % 5 == 1:
+        # the resources of this history come from *loading* a document without roots (a saved empty model), then filled
+        w.res_factory = lambda fmt=('xmi' if h % 2 else 'json'): loaded_empty(fmt)
+        ctx.count('history/resources-loaded-from-an-empty-document')
     g = store.Gen(rng, mm, w, focus=[f for f in mm.feats if f.ref and f.cont and f.many], max_objs=12)
     # build phase: a resource, a handful of objects, a root with several children
     pre = ['res'] + [f'new {rng.choice([c[0] for c in mm.classes])}' for _ in range(rng.randint(5, 9))]
